@@ -45,7 +45,7 @@ func RunProcessor(c *sim.Ctx) {
 		return int(c.Knob(name, func() int64 { return int64(c.Int(name, lo, hi)) }))
 	}
 	n := knob("events", 2, 12)
-	c.ProbeDecl("enqueue_blocked_on_semaphore", "enqueue_err_busy", "stop_with_batches_in_flight", "far_future_event_dropped", "ordered_batch_with_reordering_checker", "event_spilled_by_buffer", "all_batches_done_and_balanced", "duplicate_event_in_flight", "run_with_lamport_claim_2^31_ahead")
+	c.ProbeDecl("enqueue_blocked_on_semaphore", "enqueue_err_busy", "stop_with_batches_in_flight", "far_future_event_dropped", "ordered_batch_with_reordering_checker", "event_spilled_by_buffer", "all_batches_done_and_balanced", "duplicate_event_in_flight", "run_with_lamport_claim_2^31_ahead", "stop_right_after_start_and_enqueue")
 	type evd struct {
 		parents  []int
 		lamport  int
@@ -157,7 +157,9 @@ func RunProcessor(c *sim.Ctx) {
 	slowHL := time.Duration(knob("slow_highest_lamport_ms", 0, 3)) * 5 * time.Millisecond // a slow application callback: lets Stop land inside the inserter
 	// (callbacks that the ordering buffer invokes under its mutex must not sleep: a goroutine blocked on a
 	// sync.Mutex is not durably blocked and the bubble's clock could not advance)
-	stopMode := knob("stop_mode", 0, 1) // 0 after quiescence, 1 at a drawn instant
+	syncChecker := knob("checker_answers_synchronously", 0, 3) == 0
+	burst := knob("start_enqueue_stop_without_yielding", 0, 7) == 0 // batch 0 is enqueued and the processor stopped right after Start, on one goroutine
+	stopMode := knob("stop_mode", 0, 1)                             // 0 after quiescence, 1 at a drawn instant
 	stopAt := time.Duration(knob("stop_at_ms", 0, 1500)) * time.Millisecond
 	// the plan is the knob list; one op marks its end so that the trace is never empty
 	c.Next(func() (sim.Op, bool) {
@@ -307,6 +309,10 @@ func RunProcessor(c *sim.Ctx) {
 						err = errors.New("injected check failure")
 					}
 					d := b.delays[pc.pos]
+					if syncChecker {
+						checked(err) // the application checks on the caller's goroutine (as the library's own tests do)
+						return
+					}
 					go func() {
 						time.Sleep(d)
 						checked(err)
@@ -349,6 +355,9 @@ func RunProcessor(c *sim.Ctx) {
 		// stimuli: batches at their instants, Stop at its instant
 		var plan []stim
 		for _, b := range batches {
+			if burst && b.id == 0 {
+				continue
+			}
 			plan = append(plan, stim{at: b.at, op: sim.Op{K: "enqueue", A: []int64{int64(b.id)}}})
 		}
 		if stopMode == 1 {
@@ -398,7 +407,7 @@ func RunProcessor(c *sim.Ctx) {
 				if skip {
 					return
 				}
-				go func() {
+				run := func() {
 					t0 := now()
 					err := proc.Enqueue(b.peer, list, b.ordered, nil, func() {
 						ml.do(func() {
@@ -425,8 +434,19 @@ func RunProcessor(c *sim.Ctx) {
 							rec.violation("proc-semaphore", "proc-semaphore/busy-early", "Enqueue of batch %d returned ErrBusy after %v, the semaphore timeout is %v", b.id, took, semTimeout)
 						}
 					}
-				}()
+				}
+				if len(s.op.S) > 0 && s.op.S[0] == "inline" {
+					run() // on the caller's goroutine, nothing else runs in between
+				} else {
+					go run()
+				}
 			}
+		}
+		if burst {
+			// Start, Enqueue and Stop in one go on one goroutine: the processor's own goroutines have not run yet
+			probes.inc("stop_right_after_start_and_enqueue")
+			fire(stim{op: sim.Op{K: "enqueue", A: []int64{0}, S: []string{"inline"}}}, 0)
+			doStop()
 		}
 		drive(plan, fire, func(time.Duration) { observe("after stimulus") })
 		// let everything drain: checker delays, semaphore timeouts
